@@ -368,10 +368,14 @@ impl<'a, W: 'static, R: 'static, T: 'static> RuntimeScope<'a, W, R, T> {
                     if let XExpr::Value(cell_idx) = callee.as_ref() {
                         let cell = self.get_cell_value(*cell_idx);
                         if let EvaluationCell::LocalRecourse = cell {
-                            let args = args
+                            let args: Vec<EvaluatedValue<W, R, T>> = args
                                 .iter()
                                 .map(|x| self.eval(x, rt.clone(), false).map(|r| r.unwrap_value()))
                                 .collect::<Result<_, _>>()?;
+                            // an error argument is the result of the call (the leftmost one)
+                            if let Some(Err(e)) = args.iter().find(|a| a.is_err()) {
+                                return Ok(TailedEvalResult::Value(Err(e.clone())));
+                            }
                             return Ok(TailedEvalResult::TailCall(args));
                         }
                     }
@@ -418,6 +422,11 @@ impl<'a, W: 'static, R: 'static, T: 'static> RuntimeScope<'a, W, R, T> {
                 self.eval_func_with_expressions(func, &args, rt, tail_available)
             }
             XFunction::UserFunction { template, output } => {
+                // user functions are not short-circuiting: an error argument is the result of
+                // the call (the leftmost one) and the function is not entered
+                if let Some(Err(e)) = args.iter().find(|a| a.is_err()) {
+                    return Ok(TailedEvalResult::Value(Err(e.clone())));
+                }
                 #[cfg(xray_verif)]
                 crate::verif::on_ucall(template.id);
                 {
